@@ -770,6 +770,7 @@ def check_real(ctx, script, results, case):
         ctx.violation("helper process failed: " + results, case, "helper-failed")
         return cleans
     cmds = [s for s in script]
+    fresh = None           # mode of the last full build that was not followed by an edit / user interference
     ri = 0
     for idx, s in enumerate(cmds):
         if ri >= len(results):
@@ -781,6 +782,7 @@ def check_real(ctx, script, results, case):
             ctx.violation("helper error: " + res["helper_error"], here, "helper-error")
             break
         if s["op"] in ("spec", "rmdir", "dirty"):
+            fresh = None
             continue
         if s["op"] in ("dev", "build"):
             ctx.count("real", s["op"] + ":" + res["rc"].split(":")[0])
@@ -809,6 +811,8 @@ def check_real(ctx, script, results, case):
                                           % (st["path"], p["name"], lab, have, st["marker"]), here, "handover-not-pruned")
             check_graph_paths(ctx, g, s["mode"], here)
             cleans.append(build_event(res, here))
+            if s["args"][-1] == "root":
+                fresh = s["mode"]
             continue
         # ---- clean
         args, cmode = s["args"], s["cmode"]
@@ -854,6 +858,16 @@ def check_real(ctx, script, results, case):
                     ctx.violation("bob clean %s removed the source workspace %s with local changes without -f" % (args, d0), here, "clean-removed-dirty-source")
         if changed:
             ctx.violation("bob clean %s modified files: %r" % (args, changed[:5]), here, "clean-modified-files")
+        if fresh is not None and fresh == cmode:
+            # directly after a complete build every workspace of the current graph is an up-to-date result
+            for p in g["pkgs"]:
+                for lab in ("src", "build", "dist"):
+                    st = p["steps"][lab]
+                    if st["valid"] and st["path"] and st["path"] in bfs:
+                        ctx.case(("fresh", tuple(args), st["path"], st["vid"]), nontrivial=True)
+                        if _subtree(bfs, st["path"]) != _subtree(afs, st["path"]):
+                            ctx.violation("bob clean %s removed/altered %s, the up-to-date %s result of %s right after a complete build"
+                                          % (args, st["path"], lab, p["name"]), here, "clean-removed-fresh-result")
         ast_d = {d0[0]: d0 for d0 in ast["dirStates"]}
         bst_d = {d0[0]: d0 for d0 in bst["dirStates"]}
         for p, kind in live.items():
